@@ -200,8 +200,8 @@ RULE = ("operation lines generated from VERIF_SEED by the harness (mostly-valid 
 PROPS = {
     "C01": P("proof", [("mul", 24, 1500)], ["PT.mul"], rule=RULE),
     "C02": P("proof", [("grouplaw", 1500, 60000)], ["PT.add", "PT.addnil", "PT.addself", "PT.dbl", "PT.neg", "PT.sub", "PT.subnil", "PT.subself"], rule=RULE),
-    "C03": P("exploration", [("decode", 1200, 40000)], ["DEC.*"], rule=RULE),
-    "C04": P("exploration", [("enc", 600, 20000), ("roundtrip", 300, 10000)], ["PT.enc", "G.base", "DEC.*"], rule=RULE),
+    "C03": P("proof", [("decode", 1200, 40000)], ["DEC.*"], rule=RULE),
+    "C04": P("proof", [("enc", 600, 20000), ("roundtrip", 300, 10000)], ["PT.enc", "G.base", "DEC.*"], rule=RULE),
     "C05": P("proof", [("eq", 1500, 60000)], ["PT.eq", "PT.eqself", "PT.isid"], rule=RULE),
     "C06": P("proof", [("scarith", 2000, 100000), ("sfarith", 2000, 100000)], ["SC.*", "S.*"], rule=RULE,
              trusted=["math/big Exp/SetBytes/Bytes (Scalar.Pow goes through math/big; modelled as exact modular powering)"]),
